@@ -6,6 +6,7 @@ CONSTANTS
   MaxUrl = 3
   ReuseOnLookup = FALSE
   FabricatedNorm = FALSE
+  EmptyParam = TRUE
   WildHostCheck = TRUE
   KF_Shadow = TRUE
   Source = "picks"
